@@ -393,12 +393,16 @@ def instances(tier):
     crv = [spec('curve', (2,), ((1,),), rational=True, dim=3), spec('curve', (3,), ((2,),), rational=False, dim=3), spec('curve', (1,), ((1, 1),), rational=True, dim=3)]
     srf = [spec('surface', (1, 2), ((1,), ()), rational=True), spec('surface', (2, 1), ((), (1, 1)), rational=False), spec('surface', (2, 2), ((), (1,)), rational=True)]
     vol = [spec('volume', (1, 2, 2), ((), (), (1,)), rational=True), spec('volume', (2, 1, 1), ((), (1,), (1, 1)), rational=False)]
+    if not quick:
+        crv += [spec('curve', (4,), ((1, 2),), rational=True, dim=3), spec('curve', (5,), ((),), rational=False, dim=3)]
+        srf += [spec('surface', (3, 2), ((1,), (1, 1)), rational=True), spec('surface', (1, 3), ((1, 1, 1), ()), rational=False)]
+        vol += [spec('volume', (1, 1, 3), ((1, 1), (1,), ()), rational=True), spec('volume', (2, 2, 1), ((), (1,), (1,)), rational=False)]
     for kind, lst in (('curve', crv), ('surface', srf), ('volume', vol)):
         for i, sp in enumerate(lst):
             out.append(inst('json single %s' % spec_name(sp), h_json, timeout=900, sps=[sp], container=False))
         out.append(inst('json container1 %s' % kind, h_json, timeout=900, sps=lst[:1], container=True))
         out.append(inst('json container2 %s' % kind, h_json, timeout=1200, sps=lst[:2], container=True))
-        if kind != 'volume' and (not quick or kind == 'curve'):
+        if (kind != 'volume' and (not quick or kind == 'curve')) or (kind == 'volume' and not quick):
             out.append(inst('json container3 %s' % kind, h_json, timeout=1800, sps=lst[:3], container=True))
     for kind in ('spline', 'spline_nonrat', 'two_splines', 'freeform', 'container'):
         out.append(inst('json trims %s' % kind, h_json_trims, timeout=900, kind=kind))
